@@ -1694,4 +1694,72 @@ theorem pickle_spec (s : St) (h : WFL s) (n : Nat) (hn : n < s.next) :
   have := copy_old s n _ hc hi x hx
   exact ⟨this.1, this.2.1⟩
 
+
+/-! ### the replacing edit: `Block.replaceBlockWithBlock` -/
+
+theorem dropKids_inv (s : St) (t : Nat) (h : Inv s) : Inv (dropKids s t) := by
+  refine ⟨?_, ?_, ?_⟩
+  · intro q c hc
+    simp only [dropKids] at hc ⊢
+    by_cases hq : q = t
+    · simp [hq] at hc
+    · simp only [hq, if_false] at hc
+      have hp := h.1 q c hc
+      have : c ∉ s.kids t := by
+        intro hct; have := h.1 t c hct; rw [hp] at this; cases this; exact hq rfl
+      simp [this, hp]
+  · intro c q hp
+    simp only [dropKids] at hp ⊢
+    by_cases hct : c ∈ s.kids t
+    · simp [hct] at hp
+    · simp only [hct, if_false] at hp
+      have hk := h.2 c q hp
+      have hq : q ≠ t := by intro e; subst e; exact hct hk
+      simp [hq, hk]
+  · intro q
+    simp only [dropKids]
+    by_cases hq : q = t
+    · simp [hq]
+    · simp [hq, h.3 q]
+
+/-- **the replacing edit keeps the tree well formed**: `b.replaceBlockWithBlock(r)` in any reachable state, for a
+live block `b` and a live replacement `r` (attached or a free-standing template -- it is deep-copied either
+way): afterwards every object has one parent which lists it exactly once; the replacement itself is untouched
+(`copy_old`), so it can be used again. -/
+theorem replaceBlock_inv (s : St) (h : WFL s) (b r : Nat) (hr : r < s.next) : Inv (replaceBlock s b r).1 := by
+  have h1 := (wfl_step s (.copy r) h hr).1
+  have h1' : Inv (copyTree s r) := h1
+  unfold replaceBlock
+  apply setChildren_inv _ b _ (dropKids_inv _ _ h1') (h1'.3 s.next)
+  intro c hc
+  left
+  simp [dropKids, hc]
+
+/-- the replaced block's new children are exactly the (copied) children of the replacement's copy, all adds
+being accepted is part of the tie; the former children are parentless (detached by `removeAll`) -/
+theorem replaceBlock_old_children_detached (s : St) (h : WFL s) (b r : Nat) (hr : r < s.next) (hb : b < s.next)
+    (c : Nat) (hc : c ∈ s.kids b) (hne : ∀ x ∈ (copyTree s r).kids s.next, x ≠ c) :
+    (replaceBlock s b r).1.parent c = none ∨ ∃ q, (replaceBlock s b r).1.parent c = some q ∧ q = b := by
+  have hi := replaceBlock_inv s h b r hr
+  cases hp : (replaceBlock s b r).1.parent c with
+  | none => exact Or.inl rfl
+  | some q =>
+    right
+    refine ⟨q, rfl, ?_⟩
+    -- a parent pointer after setChildren is an old one of the intermediate state or `b`
+    unfold replaceBlock setChildren at hp
+    obtain ⟨i1, i2, _, i4, i5⟩ := removeAll_inv (dropKids (copyTree s r) s.next) b (dropKids_inv _ _ (wfl_step s (.copy r) h hr).1)
+    simp only [i2, if_true, seqOps] at hp
+    rcases seqAdd_parent b _ _ true c q hp with h1 | h2
+    · have hkb : c ∈ (dropKids (copyTree s r) s.next).kids b := by
+        have hold := (copy_old s r _ (by
+          obtain ⟨hi0, ⟨d, hd⟩, hl⟩ := h
+          exact copyOK_subtree' s d hi0 hd r hr hl) h.1 b hb).2.1
+        have hbt : b ≠ s.next := Nat.ne_of_lt hb
+        simp only [dropKids, hbt, if_false]
+        show c ∈ (copyTree s r).kids b
+        rw [show (copyTree s r).kids b = s.kids b from hold]; exact hc
+      rw [i4 c hkb] at h1; cases h1
+    · exact h2.2
+
 end ArmiVerif.Tree
